@@ -151,13 +151,13 @@ _mk("C09",
     exhaustive=True)
 
 _mk("C08",
-    ["Platypus.Properties.C08", "Platypus.Properties.C08Facts"],
+    ["Platypus.Properties.C08", "Platypus.Properties.C08Facts", "Platypus.Properties.C17Runtime"],
     rule="52 base programs with one marked expression or statement position each (assignment sides, list/map elements, operands, index expressions, every slice bound and step in every slice form, call and named arguments, "
          "conditions, all three for clauses, for-in iterables, nested blocks, positions after a loop ended) x 86 expression offenders (unknown function, wrong count/literal kind for every builtin incl. valid calls, map keys) "
          "or 10 statement offenders (break/continue outside/inside/after loops); random programs with and without an injected offender; verdict and error position compared with the model check pass; strict",
-    technique="Lean 4 theorems: check pass sound (every call anywhere registered and checker-accepted, break/continue in loops) and complete for arbitrary function tables + regenerated traversal table of both check passes matched by decide + offender-injection correspondence",
+    technique="Lean 4 theorems: check pass sound (every call anywhere registered and checker-accepted, break/continue in loops) and complete for arbitrary function tables; a rejection is reported inside the node being checked, at a stored token position of the script (check_error_inside_node, check_error_located, builtin_check_error_located) + regenerated traversal table of both check passes matched by decide + offender-injection correspondence",
     level_text="Kernel-checked for arbitrary registered function tables: if the check pass accepts, every call node at any depth and position names a registered function whose checker accepted it and every break/continue lies in a loop; "
-               "a script of valid constructs is accepted. The per-node-kind traversal (which children are visited under which guard) is regenerated from checkstmt.go and r_check.go on every run and matched against the model by decide.",
+               "a script of valid constructs is accepted; a rejection names the checked script at a position designated by the node being checked (every link of its chain), for every checker table whose refusals point into the refused call - the 26 builtin checkers do. The per-node-kind traversal (which children are visited under which guard) is regenerated from checkstmt.go and r_check.go on every run and matched against the model by decide.",
     level_note="Soundness for break/continue assumes checkers leave the loop counter alone (proved for the builtin table: builtinCheck_keeps_loops); the v2 pass is the same code (regenerated table equality).",
     exhaustive=True)
 
@@ -166,10 +166,11 @@ _mk("C05",
     rule="byte strings: random bytes incl. invalid UTF-8 and NUL, token soups over 90 lexemes (malformed numbers, unterminated strings/escapes, raw strings, comments, multi-byte runes), "
          "generated valid programs with one byte deleted/duplicated/replaced, ~70 named hard cases (nesting depth 2000-3000 of every bracket kind, unary chains, long operator chains); "
          "the exported lexer's item stream is compared item by item with the model; on the implementation's outputs: coverage of the source by the items, exactly one of tree/error, "
-         "error positioned inside the source with the line/column of its offset, no parser process death or hang",
-    technique="Lean 4 theorems about the lexer state machine (terminates, items cover the source without overlap skipping only blanks, positions inside the source) + item-stream correspondence with the real lexer + tree-xor-positioned-error check of the real parser",
+         "error positioned inside the source with the line/column of its offset, no parser process death or hang, a text the lexer refuses (ERROR item) never yields a tree; "
+         "and the parser's verdict on every input - accepted with exactly this tree, or rejected - is compared with the parser model (Model/Parse.lean, the model C06's theorems are about)",
+    technique="Lean 4 theorems about the lexer state machine (terminates, items cover the source without overlap skipping only blanks, positions inside the source) + item-stream correspondence with the real lexer + tree-xor-positioned-error check of the real parser + verdict-and-tree correspondence of the real parser with the parser model on every input",
     level_text="Kernel-checked for every byte string: the model of lex.go always yields an item, the items up to EOF/ERROR cover the source in order without overlap and skip only blanks, every position lies inside the source. "
-               "The model is tied to lex.go by comparing item streams; the parser's tree-xor-positioned-error clause is decided on the implementation for every generated input.",
+               "The model is tied to lex.go by comparing item streams; the parser's tree-xor-positioned-error clause is decided on the implementation for every generated input, whose verdict and tree must also be the parser model's.",
     level_note="Partial: termination of the goyacc LALR loop and its tables are goyacc's (trusted); the parser clause is checked on inputs, not proved.",
     exhaustive=False)
 
